@@ -15,6 +15,8 @@ import (
 var (
 	ErrClosed     = errors.New("the segment file is closed")
 	ErrInvalidCRC = errors.New("invalid crc value, log record maybe corrupted")
+	// ErrIncompleteChunk 记录在文件末尾被截断, 即最后一次追加未完整落盘
+	ErrIncompleteChunk = errors.New("log record runs past the end of the file")
 )
 
 type FileID = uint32
@@ -320,6 +322,10 @@ func (df *DataFile) readToBuf(blockID uint32, offset uint32, buf *bytebufferpool
 		// 对当前 chunk 解码
 		data, chunkType, err := DecodeChunk(block[offset:size])
 		if err != nil {
+			// chunk 不会跨越 block, 仅当该 block 是文件的最后一个 block 时才可能是末尾截断
+			if err == ErrIncompleteChunk && off+int64(size) < fileSize {
+				err = ErrInvalidCRC
+			}
 			return err
 		}
 		buf.B = append(buf.B, data...)
@@ -388,18 +394,30 @@ func (reader *DataReader) next() ([]byte, *DataPos, error) {
 		BlockID: reader.blockID,
 		Offset:  reader.offset,
 	}
+	// 记录不完整时游标回退到该记录的起始位置, 供调用方截断使用
+	incomplete := func() ([]byte, *DataPos, error) {
+		reader.blockID, reader.offset = pos.BlockID, pos.Offset
+		return nil, nil, ErrIncompleteChunk
+	}
 
 	for {
 		// 当前 block 绝对偏移量
 		off := int64(reader.blockID) * blockSize
 		// 文件在当前 block 起始位置之前已结束
 		if off >= fileSize {
+			if cnt > 0 {
+				// 已读取到记录的部分 chunk, 后续 chunk 缺失
+				return incomplete()
+			}
 			return nil, nil, io.EOF
 		}
 		// 当前 block 实际大小
 		size := uint32(min(fileSize-off, blockSize))
 
 		if reader.offset >= size {
+			if cnt > 0 {
+				return incomplete()
+			}
 			return nil, nil, io.EOF
 		}
 
@@ -412,6 +430,13 @@ func (reader *DataReader) next() ([]byte, *DataPos, error) {
 		// 对当前 chunk 解码
 		data, chunkType, err := DecodeChunk(reader.blockBuf[reader.offset:size])
 		if err != nil {
+			if err == ErrIncompleteChunk {
+				// chunk 不会跨越 block, 仅当该 block 是文件的最后一个 block 时才可能是末尾截断
+				if off+int64(size) < fileSize {
+					return nil, nil, ErrInvalidCRC
+				}
+				return incomplete()
+			}
 			return nil, nil, err
 		}
 		res = append(res, data...)
@@ -433,6 +458,24 @@ func (reader *DataReader) next() ([]byte, *DataPos, error) {
 	pos.Size = cnt*chunkHeaderSize + uint32(len(res))
 
 	return res, pos, nil
+}
+
+// Offset 返回下一条待读取记录的起始偏移量
+func (reader *DataReader) Offset() int64 {
+	return int64(reader.blockID)*blockSize + int64(reader.offset)
+}
+
+// Truncate 丢弃 size 之后的数据, 后续写入从 size 处继续
+func (df *DataFile) Truncate(size int64) error {
+	if df.closed {
+		return ErrClosed
+	}
+	if err := df.ReadWriter.Truncate(size); err != nil {
+		return err
+	}
+	df.lastBlockID = uint32(size / blockSize)
+	df.lastBlockSize = uint32(size % blockSize)
+	return nil
 }
 
 func (df *DataFile) Size() int64 {
